@@ -11,7 +11,7 @@ _ENV = {}
 # re-extracted from the tree on every run and written into the evidence; drift is reported there, never as a violation.
 # Besides the `go` statements: the Kubernetes provider's informer callbacks (addRuleSet / updateRuleSet / deleteRuleSet and
 # the filter with its obj.(*v1alpha4.RuleSet) assertions, provider.go) run on client-go's informer goroutines, which do not
-# recover either - recorded / repaired under C18 by bG2-C18 (DeletedFinalStateUnknown).
+# recover either (DeletedFinalStateUnknown in filter: C18, bG2-C18; updateStatus: C19-F12/F13, stream "k8s").
 _GO_STATEMENTS = [
     "internal/cache/memory/cache.go: go c.c.Start()",
     "internal/handler/envoyextauth/grpcv3/server_adapter.go: go func() {",
@@ -79,10 +79,11 @@ P = {
                  "C19_decode_scopes_panic_iff", "C19_decode_scopes_total_fixed",
                  "C19_fs_total", "C19_fs_run_alive", "C19_fs_run_last_good", "C19_fs_empty_keeps_state_guarded",
                  "C19_fs_total_guarded", "C19_fs_exit_iff_guard",
+                 "C19_update_status_panic_iff", "C19_update_status_total_fixed",
                  "C19_request_panic_is_non_success", "C19_composite_extract_panic_iff",
                  "C19_F1_pinned_refuted", "C19_F2_pinned_refuted", "C19_F3_pinned_refuted", "C19_F4_pinned_refuted",
                  "C19_F5_pinned_refuted", "C19_F6_pinned_refuted", "C19_F7_pinned_refuted", "C19_F8_pinned_refuted",
-                 "C19_F9_refuted", "C19_F10_refuted", "C19_F10_truststore_refuted", "C19_F11_refuted",
+                 "C19_F9_refuted", "C19_F10_refuted", "C19_F10_truststore_refuted", "C19_F11_refuted", "C19_F12_refuted", "C19_F13_refuted",
                  "C19_reload_nonvacuous"],
     "streams": [{
         # key store, trust store and request streams (no in-package access needed) share one driver binary
@@ -134,7 +135,8 @@ P = {
             "log level and private state read); rules: type-confusion of every node of three valid rule sets (12 replacement kinds incl. "
             "non-string-keyed maps, structural edits), truncation of the YAML text at every offset and random multi-mutations through "
             "ParseRules, the real processor, rule factory, REAL mechanism factory (catalogue with every mechanism type) and repository; "
-            "watch / fs-loop / watchloop: the key-store watcher and the provider's watch loop through real fsnotify (child processes): "
+            "k8s: the kubernetes provider's informer callbacks (add / update / delete / tombstone / finalize) with a scripted API client: "
+            "18 status.activeIn strings x 8 PatchStatus answers, conflicts with re-reads; watch / fs-loop / watchloop: the key-store watcher and the provider's watch loop through real fsnotify (child processes): "
             "sequences bad, bad, good, ... of in-place rewrites / atomic replacements with errors fed into the fsnotify Errors channel, "
             "every step must be delivered; fs: real files (truncated at every offset, empty, missing, ENOTDIR, FIFO unlinked before EOF) through the provider's "
             "ruleSetsChanged for every fsnotify op / previous state / processor answer; request: recovery middleware + real error handler "
@@ -180,12 +182,13 @@ P = {
                   "classes the statement fixes (reloaded / rejected / exit site, state kept on rejection, error flag).",
     "level_note": "PARTIAL by design: totality of the decision logic after byte parsing + systematic fault enumeration (truncation at every "
                   "offset, type confusion and malformed strings at every node, option injection); parsers, crypto and the mechanisms' "
-                  "decoders are data/oracles (see trusted) - only the scopes-matcher hook is modelled. C19-F1..F9 are repaired by fix: "
-                  "commits (pinned behaviour: _pinned_refuted theorems; reverting a commit is a VIOLATION with the crashing input). "
-                  "OPEN: C19-F10 (undecodable trailing PEM data ignored: partial key / trust stores are loaded; fixes/C19-F10.diff) and "
-                  "C19-F11 (empty rule file unloads the rule set; by design, no repair proposed). NOT covered here: request bytes "
-                  "through the assembled services (C01/C13), the gRPC ext_authz recovery interceptor, the http_endpoint / cloud_blob / "
-                  "kubernetes provider loops (C18; their rule-set bytes go through the ParseRules + processor path driven here); remote "
+                  "decoders are data/oracles (see trusted) - only the scopes-matcher hook is modelled. C19-F1..F10 are repaired by fix: "
+                  "commits (pinned behaviour: _pinned_refuted / _refuted theorems; reverting a commit is a VIOLATION with the crashing "
+                  "input). OPEN: C19-F11 (empty rule file unloads the rule set; by design, no repair proposed), C19-F12 and C19-F13 "
+                  "(kubernetes provider updateStatus: status.activeIn without a slash; PatchStatus error that is not a StatusError; "
+                  "fixes/C19-F12.diff, fixes/C19-F13.diff). NOT covered here: request bytes through the assembled services (C01/C13), "
+                  "the gRPC ext_authz recovery interceptor, the http_endpoint / cloud_blob provider loops and the kubernetes informer "
+                  "machinery itself (C18; their rule-set bytes go through the ParseRules + processor path driven here); remote "
                   "documents and tokens have an expectation table, no theorem.",
     "assumptions": ["drivers read private fields of jwtSigner / tlsx.keyStore / HTTPMessageSignatures / repository / Provider (in-package): "
                     "renaming them breaks the driver, not the property",
